@@ -224,7 +224,7 @@ theorem generate_iter_full (exts : Array Ext) (nbF : Nat) (hnf : nbF ≤ 48) (hv
     obtain ⟨it, hit, hst, hrd, hll⟩ := hinit
     have hat : At bs.toArray 0 bs := by intro i hi; simp
     obtain ⟨it', cur', hsteps, hst'⟩ := serAll_steps (d := bs.toArray) (nbF := nbF) (n := exts.size) _ (queues exts nbF) 0 0 0 0 it rfl hq
-      (by omega) (Nat.le_refl _) hst (fun _ => ⟨hrd, hll⟩) hat (by simp; rfl)
+      (by omega) (Nat.le_refl _) hst (fun _ => ⟨0, by rw [hrd], by intro i hi; simp at hi, hll⟩) hat (by simp; rfl)
     have hend := iterAll_end (by simpa using hst' : St bs.toArray nbF bs.toArray.size cur' it')
     obtain ⟨rs, hall, hmap⟩ := hsteps [] .done hend
     simp only [List.append_nil] at hall hmap
@@ -349,6 +349,105 @@ theorem generate_parse_ext_full (exts : Array Ext) (nbF : Nat) (hnf : nbF ≤ 48
     simp only [List.flatMap_cons, ih]
     congr 1
     exact h5 g
+
+/-- The same round trip when the extension block is preceded by `k` padding bytes `01` (what `generate`
+    with `pad = 1` and the repacketizer's padding path produce): the reader skips them, also when it
+    replays a repeat block whose source region starts at the first padding byte. -/
+theorem parse_padded_full (exts : Array Ext) (nbF : Nat) (hnf : nbF ≤ 48) (hnf0 : 0 < nbF) (hv : AllValid exts nbF) (k : Nat)
+    (cap : Int) (hcap : (exts.size : Int) ≤ cap) :
+    let bs := serAll exts.size (queues exts nbF) 0 0
+    let x := List.replicate k 1 ++ bs
+    ∃ refs, parse x x.length cap nbF = .ok refs ∧ refs.length = exts.size ∧
+      refs.map (ExtRef.toExt x) = (expAll (queues exts nbF)).map normExt ∧
+      ∀ g, (refs.filter (fun r => r.frame = g)).map (ExtRef.toExt x) = (allOf exts g).map normExt := by
+  intro bs x
+  have hq := queues_QOk exts nbF hv
+  have htq := total_queues exts nbF hv
+  have hinit : ∃ it, iterInit x x.length nbF = .ok it ∧ St x.toArray nbF 0 0 it ∧ it.repeatData = 0 ∧ it.lastLong = none := by
+    unfold iterInit
+    have h1 : ¬ ((x.length : Int) < 0) := by omega
+    have h2 : ¬ ((nbF : Int) < 0 ∨ (nbF : Int) > 48) := by omega
+    simp only [h1, h2, if_false]
+    exact ⟨_, rfl, ⟨by simp, by simp, rfl, by simp, rfl, rfl, by simp, rfl⟩, rfl, rfl⟩
+  obtain ⟨it, hit, hst, hrd, hll⟩ := hinit
+  have hatx : At x.toArray 0 x := by intro i hi; simp
+  obtain ⟨hat1, hat2⟩ := hatx.append
+  simp only [Nat.zero_add, List.length_replicate] at hat2
+  have hxlen : x.length = k + bs.length := by simp [x]
+  obtain ⟨it1, hs1, hst1, hr1, hl1⟩ := ones_steps k 0 it hst hnf0 hat1 (by simp [hxlen])
+  simp only [Nat.zero_add] at hst1
+  obtain ⟨it', cur', hsteps, hst'⟩ := serAll_steps (d := x.toArray) (nbF := nbF) (n := exts.size) _ (queues exts nbF) 0 0 0 k it1 rfl hq
+    (by omega) (Nat.le_refl _) hst1 (fun _ => ⟨k, by rw [hr1, hrd]; omega, by rw [hr1, hrd]; exact hat1, by rw [hl1, hll]⟩) hat2
+    (by simp [hxlen]; rfl)
+  have hend := iterAll_end (by simpa using hst' : St x.toArray nbF x.toArray.size cur' it')
+  obtain ⟨rs, hall, hmap⟩ := (hs1.trans hsteps) [] .done hend
+  simp only [List.append_nil, List.nil_append] at hall hmap
+  have hrslen : rs.length = exts.size := by
+    have := congrArg List.length hmap
+    simp only [List.length_map] at this
+    rw [this, expAll_length nbF _ (queues exts nbF) 0 rfl hq, htq]
+  refine ⟨rs, ?_, hrslen, hmap, ?_⟩
+  · unfold parse
+    rw [hit]
+    simp only
+    rw [parseLoop_iterAll it _ _ hall cap #[] (by simp; omega)]
+    have : ¬ (cap < ((#[] : Array ExtRef).size : Int) + (rs.length : Int)) := by rw [hrslen]; simp; omega
+    rw [if_neg this]
+    simp
+  · intro g
+    have h1 : (rs.filter (fun r => r.frame = g)).map (ExtRef.toExt x) =
+        (rs.map (ExtRef.toExt x)).filter (fun e => e.frame.toNat = g) := by
+      rw [List.filter_map]
+      congr 1
+    rw [h1, hmap]
+    have h2 : ((expAll (queues exts nbF)).map normExt).filter (fun e => e.frame.toNat = g) =
+        ((expAll (queues exts nbF)).filter (fun e => e.frame.toNat = g)).map normExt := by
+      rw [List.filter_map]
+      congr 1
+    rw [h2, expAll_filter nbF _ (queues exts nbF) 0 rfl hq g]
+    simp only [Nat.zero_le, if_true, Nat.sub_zero]
+    unfold queues
+    rw [List.getElem?_map]
+    by_cases hg : g < nbF
+    · rw [List.getElem?_eq_getElem (by simpa using hg)]; simp
+    · rw [List.getElem?_eq_none (by simpa using hg)]
+      simp only [Option.map_none, Option.getD_none, List.map_nil]
+      symm
+      rw [List.map_eq_nil_iff]
+      unfold allOf
+      rw [List.filter_eq_nil_iff]
+      intro e he
+      obtain ⟨j, hj⟩ := List.mem_iff_getElem?.mp he
+      have hve := hv j e (by simpa using hj)
+      have := hve.fr_lo; have := hve.fr_hi
+      simp; omega
+
+/-- `generate` with the padding request: the block is preceded by `01` bytes up to `len`. -/
+theorem generate_padded (exts : Array Ext) (nbF : Nat) (hnf : nbF ≤ 48) (hv : AllValid exts nbF) (len : Int)
+    (hlen : ((serAll exts.size (queues exts nbF) 0 0).length : Int) ≤ len) :
+    generate false len exts nbF true =
+      .ok (List.replicate (len.toNat - (serAll exts.size (queues exts nbF) 0 0).length) 1 ++ serAll exts.size (queues exts nbF) 0 0).toArray := by
+  have hE := allValid_extsOk hv
+  obtain ⟨hres, hcontent⟩ := genOps_full exts nbF hnf hv
+  have hN := genOps_nice exts hE nbF
+  have hsize : opsSize (genOps exts nbF).ops = (serAll exts.size (queues exts nbF) 0 0).length := by
+    rw [← content_length false _ (Or.inr hN.copy), hcontent]
+  rw [generate_eq false len exts nbF true hE (by omega) (by omega)]
+  simp only [Int.toNat_natCast]
+  have hp : needsPass len 0 (genOps exts nbF).ops := by
+    apply needsPass_of_req
+    have := hN.hon () hres
+    rw [hsize] at this
+    omega
+  simp only [hp, if_true, hcontent, hres, hsize, true_and]
+  by_cases hlt : ((serAll exts.size (queues exts nbF) 0 0).length : Int) < len
+  · simp only [hlt, if_true, Bool.false_eq_true, if_false]
+    apply congrArg
+    apply Array.ext'
+    simp
+  · simp only [hlt, if_false]
+    have : len.toNat - (serAll exts.size (queues exts nbF) 0 0).length = 0 := by omega
+    rw [this]; simp
 
 /-! ### Fixed point: parse ∘ generate ∘ parse = parse -/
 
